@@ -482,6 +482,12 @@ def rate_check(ctx, binp):
                     ctx.violation("address %s was refused at its request number %d of the second (limit %d): other addresses' traffic was counted against it" % (ip, w[1], L), rep, "C19:rate-other-address")
                     nbad += 1
                     break
+            wants = ['299 - "%s"' % w for w in (c["conf"].get("warnings") or [])]
+            if wants and (r.get("headers") or {}).get("Warning") != wants:
+                ctx.violation("warnings %s configured together with a rate limit: the response with status %s carries Warning %s (documented: included with all responses)"
+                              % (c["conf"]["warnings"], r.get("status"), (r.get("headers") or {}).get("Warning")), rep, "C19:warning-with-ratelimit")
+                nbad += 1
+                break
             if not ok and (r.get("headers") or {}).get("Retry-After") != ["1"]:
                 ctx.violation("429 without Retry-After: 1", rep, "C19:retry-after")
                 nbad += 1
@@ -714,11 +720,95 @@ def binary_check(ctx, binp):
                 ctx.violation("read-only olareg serve exited with %s after SIGTERM: %s" % (rc2, out2[-300:]), rep, "C19:sigterm-exit")
                 nbad += 1
         shutil_rmtree(root)
+    ni, ibad = inflight_check(ctx, exe)
     try:
         os.remove(exe)
     except OSError:
         pass
-    return n, nreq, nbad
+    return n + ni, nreq + 3 * ni, nbad + ibad
+
+
+def inflight_check(ctx, exe):
+    """SIGTERM while a request body is still arriving and an upload session is half written: the server drains the request,
+    exits 0, leaves no partial upload file behind, and what it acknowledged is served by a second start"""
+    rng = ctx.rng
+    n = 3 if ctx.tier == "quick" else 40
+    nbad = 0
+    for i in range(n):
+        root = os.path.join(ctx.work, "sig-root-%d" % i)
+        shutil_rmtree(root)
+        os.makedirs(root)
+        conf = dict(store="dir", push=True, delete=None, blobdelete=None, referrer=None, ro=None, ratelimit=0, warnings=[])
+        pr = Proc(exe, flag_args(conf, root), cwd=ctx.work)
+        rep = dict(flags=pr.args, scenario="sigterm-inflight")
+        if not pr.up:
+            rc, out = pr.term()
+            ctx.violation("olareg serve %s did not start listening (exit %s): %s" % (" ".join(pr.args), rc, out[-300:]), rep, "C19:binary-start")
+            nbad += 1
+            continue
+        first = b"first-%d" % rng.randrange(10 ** 6)
+        r1 = pr.req("POST", "/v2/r/blobs/uploads/?digest=" + dg("sha256", first), first, {"Content-Type": "application/octet-stream"})
+        # a session with half of its content written
+        r2 = pr.req("POST", "/v2/r/blobs/uploads/")
+        part = b"p" * rng.randrange(1, 5000)
+        loc = r2["headers"].get("Location", "")
+        if rng.random() < 0.7 and loc:
+            pr.req("PATCH", loc, part, {"Content-Type": "application/octet-stream", "Content-Range": "0-%d" % (len(part) - 1)})
+        # a monolithic upload whose body is still arriving when the signal comes
+        data = bytes(rng.randrange(256) for _ in range(rng.randrange(2000, 200000)))
+        d = dg("sha256", data)
+        h = rng.randrange(1, len(data))
+        sk = socket.create_connection(("127.0.0.1", pr.port), timeout=10)
+        sk.sendall(("POST /v2/r/blobs/uploads/?digest=%s HTTP/1.1\r\nHost: localhost\r\nContent-Type: application/octet-stream\r\nContent-Length: %d\r\nConnection: close\r\n\r\n" % (d, len(data))).encode() + data[:h])
+        time.sleep(rng.choice([0.0, 0.02, 0.1]))
+        pr.p.send_signal(signal.SIGTERM)
+        time.sleep(rng.choice([0.05, 0.2, 0.4]))
+        status = None
+        try:
+            sk.sendall(data[h:])
+            buf = b""
+            while b"\r\n" not in buf:
+                x = sk.recv(4096)
+                if not x:
+                    break
+                buf += x
+            if buf.startswith(b"HTTP/1.1 "):
+                status = int(buf[9:12])
+        except OSError as e:
+            rep["io_error"] = str(e)
+        finally:
+            sk.close()
+        rc, out = pr.term()
+        rep.update(first=r1["status"], session=r2["status"], inflight_status=status, sent_before_signal=h, size=len(data))
+        if rc != 0:
+            ctx.violation("olareg serve exited with %s after SIGTERM during a request: %s" % (rc, out[-400:]), dict(rep, output=out), "C19:sigterm-exit")
+            nbad += 1
+            continue
+        if status is None:
+            ctx.violation("SIGTERM while a request body was arriving: the request was dropped without an answer (the server did not drain it before exiting)", dict(rep, output=out), "C19:sigterm-inflight-dropped")
+            nbad += 1
+            continue
+        left = [os.path.relpath(os.path.join(dp, f), root) for dp, dn, fn in os.walk(root) for f in fn if os.path.basename(dp) == "_uploads"]
+        if left:
+            ctx.violation("after SIGTERM the storage was not closed: partial upload file(s) left behind: %s" % left[:3], dict(rep, output=out), "C19:sigterm-uploads-left")
+            nbad += 1
+            continue
+        bad = storage_intact(root)
+        if bad:
+            ctx.violation("after SIGTERM during a request the storage directory is damaged: %s" % bad, rep, "C19:sigterm-storage")
+            nbad += 1
+            continue
+        pr2 = Proc(exe, flag_args(dict(conf, ro=True), root), cwd=ctx.work)
+        for path, want, st in (("/v2/r/blobs/" + dg("sha256", first), first, r1["status"]), ("/v2/r/blobs/" + d, data, status)):
+            if st == 201:
+                res = pr2.req("GET", path)
+                if res["status"] != 200 or res["body"] != want:
+                    ctx.violation("acknowledged blob is not served after SIGTERM and restart: GET %s -> %s" % (path, res["status"]), rep, "C19:sigterm-lost")
+                    nbad += 1
+                    break
+        pr2.term()
+        shutil_rmtree(root)
+    return n, nbad
 
 
 def shutil_rmtree(p):
@@ -763,7 +853,7 @@ def run(ctx):
                               "independence of repositories is C16",
                               "a repository whose referrers were converted with the API enabled refuses to load with the API disabled (deliberate guard in indexIngest): content is pushed with the API off whenever a configuration under test has it off",
                               "rate-limit cases whose requests fall within 50 ms of a window boundary (by the driver's clock around the handler) are not judged",
-                              "the binary is exercised on loopback with GC switched off by flag; SIGTERM is sent between requests (a signal while a request body is in flight is exercised by C09's crash points, not here)"])
+                              "the binary is exercised on loopback with GC switched off by flag; SIGTERM is sent between requests and, in the in-flight scenario, while a request body is arriving and a session is half written"])
     if ctx.replay or not res:
         return
     npairs, ncmp = res["pairs"]
